@@ -379,6 +379,41 @@ func (m *Model) bindingIsConstrainedID(b Binding, table string, idFields map[*ty
 			}
 		}
 	}
+	// the result of a package helper that returns such an id (its failure returns aside)
+	{
+		var hc *ssa.Call
+		idx := 0
+		switch x := rv.(type) {
+		case *ssa.Call:
+			hc = x
+		case *ssa.Extract:
+			if c, ok := x.Tuple.(*ssa.Call); ok {
+				hc, idx = c, x.Index
+			}
+		}
+		if hc != nil {
+			if callee := hc.Common().StaticCallee(); callee != nil && m.inPkg(callee) && len(callee.Blocks) > 0 && (rfr == nil || rfr.depth < 3) {
+				fr := rfr
+				if fr == nil {
+					fr = topFrame(hc.Parent())
+				}
+				cfr := fr.inline(hc, callee)
+				all, any := true, false
+				for _, ret := range returnsOf(callee) {
+					if idx >= len(ret.Results) || m.isFailureReturn(ret) {
+						continue
+					}
+					any = true
+					if !m.bindingIsConstrainedID(Binding{V: ret.Results[idx], Fr: cfr}, table, idFields) {
+						all = false
+					}
+				}
+				if any && all {
+					return true
+				}
+			}
+		}
+	}
 	// LastInsertId of an INSERT into `table`
 	if ex, ok := rv.(*ssa.Extract); ok {
 		if call, ok := ex.Tuple.(*ssa.Call); ok && call.Common().IsInvoke() && call.Common().Method.Name() == "LastInsertId" {
